@@ -706,7 +706,22 @@ def string_bits(draw, pt, enc, n):
         if how == "present":
             raw = body + t
         elif how == "misaligned" and u > 1:
-            raw = b"\x41" + t
+            # two valid characters whose adjacent bytes spell the terminator across the character boundary,
+            # followed by a real (aligned) terminator
+            k = draw(st.integers(1, u - 1))
+            raw = None
+            for a, b in ((b"\x00\x01\x00\x00", b"\x00\x00\x21\x41"), (b"\x21\x00\x00\x00", b"\x41\x00\x00\x00"),
+                         (b"\x00\x00\x01\x00", b"\x00\x41\x00\x00")):
+                u1 = (a * 2)[:u - k] + t[:k]
+                u2 = t[k:] + (b * 2)[:k]
+                try:
+                    if len((u1 + u2).decode(codec)) == 2 and t not in (u1, u2):
+                        raw = u1 + u2 + body[:u * draw(st.integers(0, 1))] + t
+                        break
+                except UnicodeDecodeError:
+                    continue
+            if raw is None:
+                raw = b"\x41" + t
         else:
             raw = body
         filler = draw(st.sampled_from([b"\x00", b" ", b"\xff", t]))
